@@ -626,6 +626,9 @@ func explorePipe(c *mck.Ctx, it pipeItem, body func(out *pipeObs, mu *realsync.M
 func pipeSpace(items func(tier string) []pipeItem, K int) func(string) mck.Space {
 	return func(tier string) mck.Space {
 		its := items(tier)
+		if v := os.Getenv("VERIF_UNITS"); v != "" {
+			fmt.Sscan(v, &K)
+		}
 		return mck.FuncSpace{N: uint64(len(its) * K), F: func(idx uint64, c *mck.Ctx) {
 			it := its[idx/uint64(K)]
 			shard := int(idx % uint64(K))
